@@ -136,3 +136,56 @@ def A9_circuit_truthiness(rep, flow, roots):
                 else:
                     raise AnalysisError(f"{pyfacts.where(f, n)}: the truth value of the circuit parameter `{nm}` selects a branch [{ast.unparse(t)}]: the zero-gate circuit takes the other one; whether that branch serves it correctly is not decidable here")
         rep.ok("A9", 1, nontrivial=(f.fq,), sample=f"{f.qualname}: circuit parameter(s) {sorted(cparams)} never tested for truth")
+
+
+def U1_defined_attributes(rep, flow, modules):
+    """every attribute READ through `self` in a class of the given modules is defined somewhere in that class: assigned
+    through `self.<name>` (any method), at class level, a method, a property, an annotated field - or the class has a base
+    outside the repository / a `__getattr__` / `__slots__` (then nothing is decided for it).  A name that is read but
+    never defined is an AttributeError on the first call that reaches the read."""
+    rep.rule("U1", "attributes read through `self` are defined in their class (assigned, class-level, method, property or annotated field): no method dies with AttributeError on a renamed or misspelt field", floor=1)
+    prog = flow.prog
+    for mn in modules:
+        m = prog.modules.get(mn)
+        if m is None:
+            raise AnalysisError(f"module {mn} vanished")
+        for c in prog._all_classes(m):
+            # classes whose attribute set is not closed: a base that is not a repository class, __getattr__, setattr() games
+            chain, todo, open_ = [], [c], False
+            while todo:
+                k = todo.pop()
+                chain.append(k)
+                for b in k.bases:
+                    bn = b.split("[")[0].split(".")[-1]
+                    if bn in ("object", "NamedTuple", "Generic", "Protocol", "ABC"):
+                        continue
+                    bc = next((x for mm in prog.modules.values() for x in prog._all_classes(mm) if x.name == bn), None)
+                    if bc is None:
+                        open_ = True
+                    else:
+                        todo.append(bc)
+            defined = set()
+            for k in chain:
+                defined |= set(k.methods) | set(k.class_assigns) | set(k.prop_get) | set(k.inner)
+                for st in k.node.body:
+                    if isinstance(st, ast.AnnAssign) and isinstance(st.target, ast.Name):
+                        defined.add(st.target.id)
+                for n in ast.walk(k.node):
+                    if isinstance(n, ast.Attribute) and isinstance(n.ctx, (ast.Store, ast.Del)) and isinstance(n.value, ast.Name) and n.value.id in ("self", "result", "new", "obj", "other", "copy_", "clone"):
+                        defined.add(n.attr)
+                    if isinstance(n, ast.Call) and isinstance(n.func, ast.Name) and n.func.id in ("setattr", "getattr", "vars") or (isinstance(n, ast.Attribute) and n.attr == "__dict__"):
+                        open_ = True
+                if "__getattr__" in k.methods or "__slots__" in k.class_assigns:
+                    open_ = True
+            if open_:
+                continue
+            for meth in c.methods.values():
+                a0 = meth.node.args.posonlyargs + meth.node.args.args
+                if meth.is_static or not a0 or a0[0].arg != "self":
+                    continue
+                for n in ast.walk(meth.node):
+                    if isinstance(n, ast.Attribute) and isinstance(n.ctx, ast.Load) and isinstance(n.value, ast.Name) and n.value.id == "self":
+                        if n.attr in defined or n.attr.startswith("__"):
+                            rep.ok("U1", 1, nontrivial=(c.fq, n.attr))
+                        else:
+                            rep.finding("U1", f"{c.fq}:{n.attr}", f"{pyfacts.where(meth, n)}: `self.{n.attr}` is read but no method of {c.name} (nor the class body) ever defines `{n.attr}` (defined: {sorted(defined - set(c.methods))[:12]}): the call dies with AttributeError")
